@@ -106,6 +106,14 @@ func init() {
 		}
 		return None, nil
 	}, 0, "update([E, ]**F) -> None.  Update D from dict/iterable E and F.")
+
+	StringDictType.Dict["copy"] = MustNewMethod("copy", func(self Object, args Tuple) (Object, error) {
+		err := UnpackTuple(args, nil, "copy", 0, 0)
+		if err != nil {
+			return nil, err
+		}
+		return self.(StringDict).Copy(), nil
+	}, 0, "copy() -> a shallow copy of D")
 }
 
 // String to object dictionary
